@@ -61,9 +61,34 @@ func (h *handler) WantBuild(pre *projgen.PState) bool {
 
 func (h *handler) AfterGenerate(r *projgen.Replayer, c *projgen.Conc, rec *projgen.StepRec) {}
 
+// rootFate says what a Generate step did to a root resolver struct the user had customised: kept in place,
+// repeated in the warning block of resolver.go, or lost ("" = the root struct was the template's own).
+func rootFate(rec *projgen.StepRec) string {
+	if rec.Pre == nil || rec.Post == nil || rec.Pre.Root == "" || rec.Pre.Root == "gen" {
+		return ""
+	}
+	if rec.Post.Root == rec.Pre.Root {
+		return "kept_in_place"
+	}
+	for _, w := range rec.Post.Warn["resolver"] {
+		if w.K == "r" && w.ID == rec.Pre.Root {
+			return "repeated_in_warning_block"
+		}
+	}
+	if !rec.Post.Ok {
+		return "output_does_not_parse"
+	}
+	return "LOST"
+}
+
+// newCases counts the Generate steps that exercise the user-edit classes "customised root resolver struct"
+// and "helper method on the root struct" (evidence).
+var newCases = map[string]int{}
+
 // judge turns the recorded steps + TLC's verdicts into the check's verdict.
 func judge(c *vlib.Check, recs []*projgen.StepRec) (infra []string, drift, accepted, violating int) {
 	sampled := 0
+	rootSampled := false
 	classes := map[string]bool{}
 	for _, rec := range recs {
 		switch rec.Kind {
@@ -86,6 +111,28 @@ func judge(c *vlib.Check, recs []*projgen.StepRec) (infra []string, drift, accep
 				drift++
 			}
 			layout := rec.Pre.Cfg.Rl
+			fate := rootFate(rec)
+			if fate != "" {
+				newCases["root_struct_"+rec.Pre.Root+"_"+layout+":"+fate]++
+			}
+			for f, hs := range rec.Pre.Helpers {
+				for _, h := range hs {
+					if h == "hr" {
+						fateH := "LOST"
+						for _, x := range rec.Post.Helpers[f] {
+							if x == "hr" {
+								fateH = "kept_in_place"
+							}
+						}
+						for _, w := range rec.Post.Warn[f] {
+							if w.K == "h" && w.ID == "hr" {
+								fateH = "in_warning_block"
+							}
+						}
+						newCases["method_on_root_struct_"+layout+":"+fateH]++
+					}
+				}
+			}
 			if rec.Gen != nil && !rec.Gen.OK() {
 				// Generate is total in the specification: an error or a panic is a violation
 				c.Violate("C19:generate-"+rec.Gen.Class+":"+layout, fmt.Sprintf("history: %s\ngenerator outcome %s:\n%s", projgen.PathString(rec.Path), rec.Gen.Class, tail(rec.Gen.Stderr, 1500)), projgen.ReplayObject(rec))
@@ -101,6 +148,10 @@ func judge(c *vlib.Check, recs []*projgen.StepRec) (infra []string, drift, accep
 			keys, violated := rec.V.Findings("C19", layout)
 			if len(keys) == 0 {
 				accepted++
+				if fate != "" && !rootSampled && layout == "single" {
+					rootSampled = true
+					c.Sample(map[string]any{"history": projgen.PathString(rec.Path), "layout": rec.Pre.Cfg, "root_resolver_struct_before": rec.Pre.Root, "after": rec.Post.Root, "fate": fate, "postconditions_hold": true})
+				}
 				if sampled < 4 && len(rec.Path) >= 3 {
 					sampled++
 					c.Sample(map[string]any{"history": projgen.PathString(rec.Path), "layout": rec.Pre.Cfg, "postconditions_hold": true, "equals_intended_successor": rec.V.IdealEq})
@@ -114,6 +165,9 @@ func judge(c *vlib.Check, recs []*projgen.StepRec) (infra []string, drift, accep
 					what, projgen.PathString(rec.Path), layout, rec.Pre.Cfg.El, violated, rec.V.D, rec.V.Explained, strings.Join(rec.Obs.Notes, "\n"))
 				if b, ok := rec.Extra["buildAfter"].(string); ok {
 					detail += "\ngo build after the run:\n" + b
+				}
+				if fate == "LOST" {
+					detail += fmt.Sprintf("\nthe root resolver struct the user had customised (token %s: fields / embedded types added to `type Resolver struct{}` in resolver.go) is LOST: after the run resolver.go declares %q and the declaration is not in the warning block either", rec.Pre.Root, rec.Post.Root)
 				}
 				c.Violate(k, detail, projgen.ReplayObject(rec))
 			}
@@ -279,8 +333,10 @@ func main() {
 	c.Set("rule", "TLC enumerates the state graph of Project.tla (with the deviations currently listed open) up to the history bound; vlib.CoverPaths gives histories covering EVERY edge; each is replayed as an action script through the real generator; every step is recorded as (observed pre-state, action, observed post-state) and TLC (ProjectStep.tla) evaluates the statements' postconditions of the INTENDED design on it; a class = one distinct observed Generate step")
 	c.Set("exhaustive", exhaustive && total.Skipped == 0)
 	c.Set("model", map[string]any{"mc_config": mcCfg, "mc_distinct": mc.Distinct, "mc_generated": mc.Generated, "edge_graphs": models})
+	c.Set("root_struct_and_root_method_cases", newCases)
 	c.Set("replay", map[string]any{"histories": npaths, "edges_replayed": total.Edges, "generate_runs": total.Generates, "initial_generations": total.Inits, "edges_below_stopped_steps": total.Skipped, "go_builds": projgen.BuildCount, "tour_model_deviations": curDevs, "impl_level_drift": total.Drift, "actions_inapplicable_after_drift": total.Inapplicable, "generate_steps_accepted": accepted, "generate_steps_violating": violating})
-	c.Assume("resolver fields are String! fields of Query and of one object type with @goField(forceResolver); bodies, doc comments, helpers and imports come from seeded pools (harness/projgen/pool.go), gofmt-formatted like an editor would")
+	c.Assume("resolver fields are String! fields of Query and of one object type with @goField(forceResolver); bodies, doc comments, helpers (incl. a method on the root resolver struct), customisations of the root resolver struct (fields, embedded types, doc comment) and imports come from seeded pools (harness/projgen/pool.go), gofmt-formatted like an editor would")
+	c.Assume("a customised root resolver struct is compared as the whole declaration text (field list, tags, inner comments); its doc comment is not 'code of the declaration'; 'repeated in the warning block' satisfies the statement, 'replaced by an empty struct' does not")
 	c.Assume("'user imports are kept' is bound for imports that the surviving methods of the file still reference (imports.Prune removing an import nothing references is not a loss); doc comments of helper declarations and free-floating comments are not 'code of a declaration'")
 	c.Assume("a method declared in two resolver files at once (only possible after the stale-file deviation, package does not compile) is followed as the code behaves but MethodsKept demands nothing for it")
 	c.Assume("type-correctness (compiledBefore => compiledAfter) is decided by go build on a budgeted subset of the Generate steps where the specification demands it")
